@@ -154,6 +154,49 @@ def check_telescoping(ctx, model):
            % (close_uses_total, dep_stored, sorted(map(repr, add_dep))[:6]), v.where())
 
 
+def check_snapshot_before_update(ctx, model):
+    """W2 (state handling): the telescoping increment f(prev + a) - f(prev) needs `prev` = the position's amount BEFORE
+    this expansion: in the OPEN_POSITIONS.update closure of expand_position the snapshot written to the captured variable
+    is taken before the amount is increased (taken after, the increment becomes f(prev + 2a) - f(prev + a))."""
+    v = ctx.view(EXPAND, "C13-W2")
+    if v is None:
+        return
+    found = False
+    for q in [x for x in model.fnsrc if x.startswith(EXPAND + "::{closure")]:
+        cv = model.view(q)
+        snaps = []
+        for b, i, s_ in cv.iter_stmts():
+            if "*" in s_["lhs"]["p"] and s_["rv"]["r"] == "use" and s_["rv"]["op"]["k"] in ("copy", "move"):
+                roots = {s_["lhs"]["l"]} | cv.alias_roots(s_["lhs"]["l"])
+                if 1 in roots:   # write through the closure environment: a captured `&mut` variable
+                    os_ = cv.origins_of_operand(s_["rv"]["op"], at=(b, i))
+                    if os_ and all(o.proj and o.proj[-1] == "amount" for o in os_):
+                        snaps.append((b, i))
+        adds = []
+        for b, t in cv.iter_calls():
+            n = mname(t)
+            if re.search(r"AddAssign(<.*>)?>::add_assign$", n):
+                a0 = t["args"][0]
+                if a0["k"] in ("copy", "move"):
+                    os_ = cv.origins_of_operand(a0, at=cv.at_term(b), taint=True)
+                    if any(o.proj and o.proj[-1] == "amount" for o in os_) or True:
+                        adds.append(b)
+        for b, i, s_ in cv.iter_stmts():
+            F = cv._named_fields(s_["lhs"]["p"])
+            if F and F[-1] == "amount" and s_["rv"]["r"] == "use":
+                os_ = cv.origins_of_operand(s_["rv"]["op"], at=(b, i))
+                if any(o.kind == "call" and re.search(r"checked_add$|as std::ops::Add>::add$", o.a) for o in os_):
+                    adds.append(b)
+        if not snaps or not adds:
+            continue
+        found = True
+        bad = [(sb, ab) for sb, si in snaps for ab in adds if sb != ab and sb in cv.reach_strict(ab)]
+        ctx.ob("C13-W2", "%s|previous-amount-read-before-the-increase" % EXPAND, not bad,
+               "snapshot of the position amount at bb%s, increase at bb%s: snapshot taken after the increase: %s" % ([x[0] for x in snaps], adds, bool(bad)), cv.where(snaps[0][0]))
+    if not found:
+        ctx.missing("C13-W2", "snapshot of the previous position amount and its increase in expand_position's update closure")
+
+
 VOC = re.compile(r"(incentive::helpers::|Uint128::(saturating_sub|checked_div|checked_add|checked_sub|checked_mul)|Decimal256::from_ratio|"
                  r"Uint256::from_uint128|as std::ops::Mul|try_into|HashMap::(get|insert|is_empty)|cw_storage_plus::|as std::cmp::Partial|BTreeMap::)")
 BIN = set("Add Sub Mul Div Rem Lt Le Gt Ge Eq Ne AddWithOverflow SubWithOverflow MulWithOverflow".split())
@@ -299,6 +342,7 @@ def run(ctx):
     check_weight_pairing(ctx, model, EXPAND, "add")
     check_weight_pairing(ctx, model, CLOSE, "sub")
     check_telescoping(ctx, model)
+    check_snapshot_before_update(ctx, model)
     check_sibling(ctx, model)
     check_claim_guards(ctx, model)
     check_weight_fn(ctx, model)
